@@ -2,9 +2,39 @@ import ALV.Common.Json
 import ALV.Model.C18
 import ALV.Model.C18Res
 import ALV.Model.C18Riff
+import ALV.Model.C18Call
 import ALV.Spec.C18
 namespace ALV.Driver.C18
 open ALV ALV.J ALV.C18
+
+/-- the `byte_order` argument as it is spelled in the call -/
+def orderArgOf (j : Json) : Except String OrderArg :=
+  match j with
+  | Json.null => pure .none
+  | Json.str "omit" => pure .omitted
+  | Json.str "@" => pure .at
+  | Json.str "=" => pure .eq
+  | Json.str "<" => pure .lt
+  | Json.str ">" => pure .gt
+  | Json.str "!" => pure .bang
+  | _ => throw s!"bad byte order {j.compress}"
+
+def excName : Exc → String
+  | .structError => "struct.error" | .overflowError => "OverflowError" | .typeError => "TypeError"
+  | .indexError => "IndexError"
+
+def pyv (j : Json) : Except String PyV :=
+  match j with
+  | Json.null => pure .none
+  | Json.bool b => pure (.bool b)
+  | Json.int n => pure (.int n)
+  | Json.str "FILE" => pure .file
+  | Json.obj _ => do
+    match optField j "list", optField j "s" with
+    | some lj, _ => pure (.list (← getNat lj))
+    | none, some sj => pure (.str (← getStr sj))
+    | none, none => pure (.flt (Float.ofBits (UInt64.ofNat (← getNat (← field j "f")))))
+  | _ => throw s!"bad argument {j.compress}"
 
 def orderOf (j : Json) : Except String (Option Order) :=
   match j with
@@ -43,10 +73,6 @@ def getBytes (j : Json) : Except String Bytes := do
   let l ← getList getNat j
   pure (l.map UInt8.ofNat)
 
-def structErr : PackErr → String
-  | .range => "struct.error" | .notInt => "struct.error" | .floatRange => "OverflowError"
-def arrayErr : PackErr → String
-  | .range => "OverflowError" | .notInt => "TypeError" | .floatRange => "OverflowError"
 def absErr : PackErr → String
   | .range => "range" | .notInt => "notInt" | .floatRange => "floatRange"
 
@@ -145,22 +171,29 @@ def handleRes (j : Json) : Except String Json := do
 def handle1 (entry : String) (j : Json) : Except String Json := do
   match entry with
   | "chunks" =>
-    let std ← getBool (fieldD j "std" (Json.bool false))
     let long ← getNat (fieldD j "long" (Json.int 8))
-    let (fmt, afmt) ← fmtOf (← getStr (← field j "fmt")) std long
     let native ← orderOf (← field j "native")
     let native ← match native with | some o => pure o | none => throw "native order required"
-    let order := resolveOrder native (← orderOf (fieldD j "order" Json.null))
+    let oa ← orderArgOf (fieldD j "order" Json.null)
+    let std := oa.std
+    let (fmt, afmt) ← fmtOf (← getStr (← field j "fmt")) std long
+    let order := resolveOrder native oa.order
     let size ← getNat (← field j "size")
     if size = 0 then throw "size must be positive"
     let pad ← pval (← field j "pad")
     let xs ← getList pval (← field j "xs")
-    let s := chunksStruct order (leElem true fmt) size pad xs
-    let a := chunksArray native order (leElem false afmt) (.int 0) size pad xs
+    let s := chunksStructPy native oa fmt size pad xs
+    let a := chunksArrayPy native oa afmt size pad xs
+    let dflt ← match fieldD j "default" (Json.str "struct") with
+      | Json.str "struct" => pure Strategy.struct
+      | Json.str "array" => pure Strategy.array
+      | d => throw s!"bad default strategy {d.compress}"
+    let en := chunksEntry dflt native oa fmt afmt size pad xs
     let sp := chunksSpec (encOrder order (leElem true fmt)) size pad xs
     let spa := chunksSpec (encOrder order (leElem false afmt)) size pad xs
     pure <| Json.mkObj [
-      ("struct", genJson structErr s), ("array", genJson arrayErr a),
+      ("struct", genJson (fun e => excName (structExc e)) s), ("array", genJson (fun e => excName (arrayExc e)) a),
+      ("dict_entry", genJson excName en),
       ("spec", genJson absErr sp), ("spec_array", genJson absErr spa),
       ("width", natToJson fmt.width), ("awidth", natToJson afmt.width), ("padlen", natToJson (padLen size xs.length))]
   | "wav" =>
@@ -200,8 +233,25 @@ def handle1 (entry : String) (j : Json) : Except String Json := do
         let r := wavTake channels sw (f.sampwidth * channels) k ⟨data, [], false⟩
         let n := (sampleReader channels sw (blockReader (f.sampwidth * channels) data)).length
         pure [("lazy", Json.mkObj [("taken", natToJson r.1.length), ("closed", Json.bool r.2.closed),
-                ("spec_taken", natToJson (min k n)), ("spec_closed", Json.bool (closedAfter n k))])]
+                ("spec_taken", natToJson (min k n)), ("spec_closed", Json.bool (closedAfter n k)),
+                ("read", natToJson (data.length - r.2.data.length)),
+                ("spec_read", natToJson (bytesRead channels (f.sampwidth * channels) data k)),
+                ("align", natToJson (alignByte channels (f.sampwidth * channels) data k))])]
     pure <| Json.mkObj (base ++ specPart ++ anyPart ++ lazyPart)
+  | "wavcall" =>
+    -- `WavStream(*pos, **kw)`: the binding to `(wave_file, keep=False)` and the truth value are the model's
+    let pos ← getList pyv (← field j "pos")
+    let kw ← getList (fun p => do pure ((← getStr (← field p "k")), (← pyv (← field p "v")))) (← field j "kw")
+    let pf ← wavFileOf j
+    match pf with
+    | .error e => pure <| Json.mkObj [("open_err", Json.str (openErr e))]
+    | .ok f =>
+      match (wavStreamCall f pos kw : Except CallErr (WavObs Rat)) with
+      | .error .typeError => pure <| Json.mkObj [("err", Json.str "TypeError")]
+      | .error .notAFile => pure <| Json.mkObj [("err", Json.str "notAFile")]
+      | .ok o => pure <| Json.mkObj [("out", arr sampleJson o.gen.out),
+          ("gen_err", optJson (fun e => Json.str (wavErr e)) o.gen.err), ("kind", Json.str (kindOf o.gen.out)),
+          ("rate", natToJson o.rate), ("channels", natToJson o.channels), ("bits", natToJson o.bits)]
   | "res" => handleRes j
   | _ => throw s!"C18: unknown entry {entry}"
 
